@@ -1,5 +1,8 @@
 import Driver.Util
 import Driver.Part
+import Driver.Route
+import Driver.DSet
+import Driver.Coll
 /-! `ygm_model <mode>`: runs the executable definitions of `YgmVerif.Model.*`
 (the very definitions the theorems in `YgmVerif.Props.*` are about) behind a
 one-line-in / one-line-out protocol. -/
@@ -9,4 +12,7 @@ def main (args : List String) : IO UInt32 := do
   let stdin ← IO.getStdin
   match args with
   | ["part"] => lineLoop stdin Driver.Part.handle; return 0
+  | ["route"] => lineLoop stdin Driver.Route.handle; return 0
+  | ["dset"] => lineLoop stdin Driver.DSet.handle; return 0
+  | ["coll"] => lineLoop stdin Driver.Coll.handle; return 0
   | _ => IO.eprintln "usage: ygm_model <mode>"; return 2
